@@ -840,6 +840,10 @@ class VecTr(Tr):
                 return "(map (sigmoid ROps) %s)" % x, "V"
             if tx == F:
                 return "(sigmoid ROps %s)" % x, F
+        if fname == "torch.sum" and len(args) == 1 and not kw:
+            a, ta = self.expr(args[0], env)
+            if ta == "V":
+                return "(sum ROps %s)" % a, F
         if fname == "torch.atan2" and len(args) == 2 and not kw:
             a, ta = self.expr(args[0], env)
             b, tb = self.expr(args[1], env)
